@@ -16,6 +16,18 @@ CLAIMED = {
     note="A1 reals, A2, A3 (torch.min/max/boolean-mask assignment models), abstract Domain/PointSampler operand contracts (refinement by concrete classes is C01/C02), A9. 'with the stated probability' is reduced to the code's own uniform draw; the law of that draw is not decided.",
     tech="contract-based deductive verification: 2-state inductive invariant + postconditions, VCs from the real AST, z3"),
 }
+
+GEO_NOTE = "A1 real arithmetic (floats = reals, float constants = the simple rational they round from), A2, A3 torch model, A8 row-wise shape functions, A9. Under contract so far: Point, Interval(+boundaries), Circle, Sphere, Parallelogram, Triangle and their boundaries, constant and parameter-dependent shapes, with and without parameter rows. ShapelyPolygon / TrimeshPolyhedron (C code of shapely/trimesh) are not under contract. Termination of rejection loops is not provable in this family."
+for _p, _t in [
+ ("C01", "Postcondition 'every returned row lies in the set denoted at its own parameter row' (oracles from the mathematical set definitions) on sample_random_uniform / sample_grid of every primitive and its boundary, for all n, K, positions, sizes, orientations and every outcome of the random generator; helper contracts (perimeter walk) proved separately and used modularly."),
+ ("C02", "Shape/provenance postconditions on the domain-level samplers: exactly K'*n rows, grouped by parameter row (row-major structured axis), dim columns, the domain's space."),
+ ("C05", "_contains of every primitive: one truth value per row; interior membership <=> the closed set (each point against its own parameter row); boundary membership accepts exact boundary points and rejects beyond the isclose tolerance band."),
+ ("C10", "volume() = analytic measure (pi symbolic) per parameter row, positive for both orientations, boundary measures; density sampling returns exactly ceil(density*measure) rows (at most 2*ceil for the rejection-based triangle)."),
+ ("C18", "bounding_box(): flat [min,max] per axis, encloses every point of every supplied parameter row (min/max over rows by their defining axioms), tight for one row."),
+ ("C06", "normal(): row count, unit length, finiteness (non-zero divisors) and first-order outwardness at every exact boundary point for Interval, Circle, Sphere boundaries."),
+]:
+    CLAIMED[_p] = dict(cat="proof", sec="DESIGN 4/" + _p, text=_t, note=GEO_NOTE, tech="contract-based deductive verification: VCs generated from the AST of the real source by a symbolic interpreter (tpv), discharged by z3 (nlsat on a sound QF_NRA weakening, cvc5 as second back end)")
+
 NA = {
  "C19": "restore fidelity is a property of Lightning's checkpoint / torch.save machinery, the file system and process restarts; no contract on a repo function expresses it (DESIGN 4/C19)",
  "C20": "shift-equivariance / resolution consistency are DFT theorems about torch.fft in complex floating point; a contract on _FourierLayer.forward could only restate them as axioms of an external library (DESIGN 4/C20)",
